@@ -439,47 +439,100 @@ fn main() {
                 }
             }
         }
+        // family 5: absolute-form request targets (a client configured with an HTTP proxy sends them): path and query
+        // reach the host unchanged (whether the proxy keeps the absolute form or rewrites it to origin form)
+        let mut abs_n = 0u64;
+        let origin = |t: &str| -> String {
+            match t.strip_prefix("http://") {
+                Some(rest) => match rest.find('/') {
+                    Some(i) => rest[i..].to_string(),
+                    None => "/".to_string(),
+                },
+                None => t.to_string(),
+            }
+        };
+        for authority in ["168.63.129.16", "168.63.129.16:80", "metadata.example"] {
+            for pq in ["/abs", "/abs?x=1", "/abs/deep/path?api-version=2021-02-01&format=json", "/abs?", "/?q=%2F"] {
+                for method in ["GET", "POST"] {
+                    id += 1;
+                    abs_n += 1;
+                    sport = if sport >= 39000 { 36000 } else { sport + 1 };
+                    let sep = if pq.contains('?') { if pq.ends_with('?') { "" } else { "&" } } else { "?" };
+                    let path_query = format!("{pq}{sep}id={id}&st=200&len=3&fr=cl");
+                    let target = format!("http://{authority}{path_query}");
+                    let raw = build_request(method, &target, &[("Host", authority.as_bytes())], if method == "POST" { Some(b"req-body") } else { None }, None);
+                    let cur = w.hosts.ws.cursor();
+                    let resp = match w.connect(Some(sport), Some(&rec)) {
+                        Ok(mut c) => {
+                            let r = c.send(&raw).map_err(|e| e.to_string()).and_then(|_| c.read_response(false, Duration::from_secs(10)));
+                            c.close();
+                            r
+                        }
+                        Err(e) => Err(format!("connect: {e}")),
+                    };
+                    evals += 1;
+                    let case = json!({"family": "absolute-form-target", "method": method, "target": target});
+                    nontrivial.insert(case.to_string());
+                    let got = w.hosts.ws.requests_since(cur);
+                    match got.first() {
+                        None => res.violation("request-not-relayed", &format!("absolute-form request: nothing reached the host; client got {:?}", resp.as_ref().map(|r| r.status())), case),
+                        Some((_, m)) => {
+                            if m.method() != method || origin(m.target()) != path_query {
+                                res.violation("request:method-or-target-changed", &format!("client sent {method} {target}; host saw {} {}", m.method(), m.target()), case);
+                            }
+                        }
+                    }
+                }
+            }
+        }
+        res.cov("absolute_form_requests", abs_n);
         res.cov("host_dies_mid_answer_requests", aborted_n);
         res.cov("exempt_upload_requests", exempt_n);
         res.cov("pipelines", pipelines);
-        res.cov("rule", format!("one request per fresh attributed connection for the product of 5 methods x {} client header sets (repeated names in three spellings, empty value, punctuation, names resembling the proxy-owned ones, 14 well-known request headers) x {} request body framings (0..102400 bytes, content-length / chunks of 1, 7, 4096 / single chunk) x {} host answers (status 200/204/404/500, body 0/1/70000 bytes covering all byte values, content-length or chunked, TCP segment boundary at 0/1/2/4095/4096/4097), with a key latched and (slice) without; plus {} pipelines of 1-3 back-to-back requests on 1 and 2 concurrent keep-alive connections; plus answers cut off by the death of the host at 10 offsets (inside the head, 0/1/3/4000/8197 bytes into the body, 8/5/3/1 bytes before the end) x content-length/chunked x 2 sizes, which must not reach the client as a complete message; plus the two signature-exempt uploads with 9 body framings (0 bytes .. 1 MiB, content-length and chunked) x 2 header sets; the host's answer is a function of the request target and echoes the request id", hsets, req_bodies.len(), resps.len(), pipelines));
+        res.cov("rule", format!("one request per fresh attributed connection for the product of 5 methods x {} client header sets (repeated names in three spellings, empty value, punctuation, names resembling the proxy-owned ones, 14 well-known request headers) x {} request body framings (0..102400 bytes, content-length / chunks of 1, 7, 4096 / single chunk) x {} host answers (status 200/204/404/500, body 0/1/70000 bytes covering all byte values, content-length or chunked, TCP segment boundary at 0/1/2/4095/4096/4097), with a key latched and (slice) without; plus {} pipelines of 1-3 back-to-back requests on 1 and 2 concurrent keep-alive connections; plus 30 absolute-form request targets (3 authorities x 5 path/query shapes x 2 methods): path and query unchanged at the host; plus answers cut off by the death of the host at 10 offsets (inside the head, 0/1/3/4000/8197 bytes into the body, 8/5/3/1 bytes before the end) x content-length/chunked x 2 sizes, which must not reach the client as a complete message; plus the two signature-exempt uploads with 9 body framings (0 bytes .. 1 MiB, content-length and chunked) x 2 header sets; the host's answer is a function of the request target and echoes the request id", hsets, req_bodies.len(), resps.len(), pipelines));
     } else {
         // ---------------- C15 ----------------
         w.set_key(Some(K1));
         let low = 102_400usize;
         let high = 104_857_600usize;
-        let mut cases: Vec<(&'static str, &'static str, usize, usize, bool)> = Vec::new(); // method, target, limit, len, chunked
+        let mut cases: Vec<(&'static str, &'static str, usize, usize, bool, bool)> = Vec::new(); // method, target, limit, len, chunked, a small Content-Length header in front of Transfer-Encoding
         let low_targets: Vec<(&'static str, &'static str)> = vec![("POST", "/t?id=1"), ("PUT", "/t?id=1"), ("PUT", "/vmAgentLog/"), ("POST", "/vmAgentLog"), ("PUT", "/machine/?comp=telemetrydata"), ("POST", "/machine/?comp=telemetrydata&x=1"), ("PUT", "/vmAgentLog?x=1")];
         for (m, t) in &low_targets {
             for l in [low - 1, low, low + 1, 2 * low] {
                 for ch in [false, true] {
-                    cases.push((m, t, low, l, ch));
+                    cases.push((m, t, low, l, ch, false));
+                }
+                if l > low {
+                    cases.push((m, t, low, l, true, true));
                 }
             }
         }
         let high_targets: Vec<(&'static str, &'static str)> = if thorough { vec![("PUT", "/vmAgentLog"), ("POST", "/machine/?comp=telemetrydata"), ("PUT", "/VMAGENTLOG"), ("POST", "/MACHINE/?COMP=TelemetryData")] } else { vec![("PUT", "/vmAgentLog")] };
         for (m, t) in &high_targets {
             // small bodies on the exempt routes must of course pass
-            cases.push((m, t, high, low + 1, false));
-            cases.push((m, t, high, 2 * low, true));
+            cases.push((m, t, high, low + 1, false, false));
+            cases.push((m, t, high, 2 * low, true, false));
+            // the body is only as long as hyper's chunked decoder says, whatever a Content-Length header in front claims
+            cases.push((m, t, high, high + 1, true, true));
             let lens: Vec<usize> = if thorough { vec![high - 1, high, high + 1, 2 * high] } else { vec![high, high + 1] };
             for l in lens {
                 for ch in if thorough { vec![false, true] } else { vec![false] } {
-                    cases.push((m, t, high, l, ch));
+                    cases.push((m, t, high, l, ch, false));
                 }
             }
         }
         if let Ok(path) = std::env::var("VERIF_REPLAY") {
             let doc: Value = serde_json::from_str(&std::fs::read_to_string(path).unwrap()).unwrap();
             let c = &doc["case"];
-            cases.retain(|x| json!(x.0) == c["method"] && json!(x.1) == c["target"] && json!(x.3) == c["length"] && json!(x.4) == c["chunked"]);
+            cases.retain(|x| json!(x.0) == c["method"] && json!(x.1) == c["target"] && json!(x.3) == c["length"] && json!(x.4) == c["chunked"] && (c["small_content_length_in_front"].is_null() || json!(x.5) == c["small_content_length_in_front"]));
         }
-        for (m, t, limit, len, chunked) in cases {
+        for (m, t, limit, len, chunked, lying) in cases {
             sport = if sport >= 39000 { 36000 } else { sport + 1 };
             let body = pattern(len, 3);
             let want_sha = sha::sha256(&body);
             let cs = [65536usize];
-            let raw = build_request(m, t, &[("Host", b"metadata")], Some(&body), if chunked { Some(&cs) } else { None });
+            let hdrs: Vec<(&str, &[u8])> = if lying { vec![("Host", b"metadata"), ("Content-Length", b"10")] } else { vec![("Host", b"metadata")] };
+            let raw = build_request(m, t, &hdrs, Some(&body), if chunked { Some(&cs) } else { None });
             drop(body);
             let cur = w.hosts.ws.cursor();
             let resp = match w.connect(Some(sport), Some(&rec)) {
@@ -505,7 +558,7 @@ fn main() {
             let got = w.hosts.ws.requests_since(cur);
             let bytes = w.hosts.ws.bytes_since(cur);
             evals += 1;
-            let case = json!({"method": m, "target": t, "limit": limit, "length": len, "chunked": chunked});
+            let case = json!({"method": m, "target": t, "limit": limit, "length": len, "chunked": chunked, "small_content_length_in_front": lying});
             if evals <= 2 || (len > limit && res.samples.len() < 4) {
                 res.sample(json!({"case": case, "status": format!("{:?}", resp), "bytes_at_host": bytes}));
             }
